@@ -72,7 +72,7 @@ TrFam ==
   /\ Ev.e = "Fam" /\ Step
   /\ tt' = Ev.tt /\ dom' = Ev.dom
   /\ inited' = FALSE /\ opts' = DefaultOpts /\ stack' = << <<>> >> /\ names' = <<>>
-  /\ defs' = <<>> /\ mode' = "start" /\ model' = <<>> /\ errs' = 0
+  /\ defs' = <<>> /\ mode' = "start" /\ model' = <<>> /\ errs' = 0 /\ fids' = <<0>> /\ nextFid' = 1
   /\ memo' = <<>> /\ memoCmd' = <<>> /\ memoOut' = <<>> /\ popped' = {} /\ rejSeen' = FALSE
   /\ unsatAt' = {} /\ poppedUnsat' = FALSE /\ rejNamed' = FALSE
   /\ run' = NoRun /\ viol' = viol /\ TLCSet(2, l)
@@ -82,7 +82,7 @@ TrRun ==
   /\ run' = [sid |-> Ev.sid, cfg |-> Ev.cfg, kind |-> Ev.kind, io |-> Ev.io,
              base |-> Ev.base, intl |-> Ev.intl, dup |-> Ev.dup, logic |-> Ev.logic]
   /\ inited' = FALSE /\ opts' = DefaultOpts /\ stack' = << <<>> >> /\ names' = <<>>
-  /\ defs' = <<>> /\ mode' = "start" /\ model' = <<>> /\ errs' = 0
+  /\ defs' = <<>> /\ mode' = "start" /\ model' = <<>> /\ errs' = 0 /\ fids' = <<0>> /\ nextFid' = 1
   /\ popped' = {} /\ rejSeen' = FALSE /\ unsatAt' = {} /\ poppedUnsat' = FALSE /\ rejNamed' = FALSE
   /\ UNCHANGED <<tt, dom, memo, memoCmd, memoOut>> /\ viol' = viol /\ TLCSet(2, l)
 
@@ -127,7 +127,7 @@ TrReject ==
 TrSimple ==  \* commands without effect on the modelled state
   /\ Ev.e = "Cmd" /\ Ev.r # "error" /\ Step
   /\ Ev.c \in {"declare", "declare-sort", "set-info", "get-info", "get-option", "echo",
-               "exit", "get-proof", "other"}
+               "exit", "other"}
   /\ Silent /\ CmdMemoUpd(Ev.r)
   /\ UNCHANGED <<run, memo, memoOut, popped, rejSeen, unsatAt, poppedUnsat, rejNamed>>
   /\ Note(MustRejectViol \cup CmdMemoViol(Ev.r))
@@ -277,6 +277,27 @@ TrGetInterpolants ==
                            V("C09", [pathStepFails |-> j]))
                       : j \in DOMAIN Ev.itps } )
 
+\* get-proof: C10
+TrGetProof ==
+  /\ IsCmd("get-proof") /\ Ev.r # "error" /\ Step /\ Silent /\ CmdMemoUpd(Ev.r)
+  /\ UNCHANGED <<run, memo, memoOut, popped, rejSeen, unsatAt, poppedUnsat, rejNamed>>
+  /\ Note( MustRejectViol \cup
+           IF ~Ev.pok THEN {V("C10", "printed proof cannot be read")}
+           ELSE IF mode # "unsat" \/ ~Ev.mon THEN {}
+           ELSE If(~UniqueNames(Ev.nodes), V("C10", "a clause name is bound twice")) \cup
+                If(~BoundBeforeUse(Ev.nodes), V("C10", "a clause name is used before it is bound")) \cup
+                IF BoundBeforeUse(Ev.nodes) /\ UniqueNames(Ev.nodes)
+                THEN If(~StepsValid(Ev.nodes),
+                        V("C10", [badStep |-> "a resolution step has no pivot with opposite signs",
+                                  constantPivot |-> \E k \in DOMAIN Ev.nodes : \E j \in DOMAIN Ev.nodes[k].steps :
+                                                       tt[Ev.nodes[k].steps[j].p].k = "b"])) \cup
+                     If(StepsValid(Ev.nodes) /\ ~RootClosed(Ev.nodes, Ev.root),
+                        V("C10", [rootNotBoundOrNotEmpty |-> Ev.root])) \cup
+                     If(~ActivationsCurrent(Ev.nodes, ActiveFids), V("C10", "the proof activates a level that is not on the stack")) \cup
+                     { V("C10", [leafNotImplied |-> Ev.nodes[k].id]) :
+                          k \in { j \in DOMAIN Ev.nodes : ~LeafImplied(Ev.nodes, j, { Ev.prem[i] : i \in DOMAIN Ev.prem }, Ev.hl[j]) } }
+                ELSE {} )
+
 \* end of a run: exit status, crash, output as a function of (script, cfg)
 OutKey == <<run.sid, run.cfg>>
 TrExit ==
@@ -304,7 +325,7 @@ Next ==
   /\ l <= Len(Tr)
   /\ \/ TrFam \/ TrRun \/ TrReject \/ TrSimple \/ TrBad \/ TrSetLogic \/ TrSetOption
      \/ TrDefine \/ TrAssert \/ TrPush \/ TrPop \/ TrCheckSat \/ TrGetModel \/ TrGetValue
-     \/ TrGetAssignment \/ TrGetUnsatCore \/ TrGetInterpolants \/ TrExit
+     \/ TrGetAssignment \/ TrGetUnsatCore \/ TrGetInterpolants \/ TrGetProof \/ TrExit
 
 Spec == Init /\ [][Next]_vars
 
